@@ -6,7 +6,7 @@ import itertools
 from . import tt
 from .refmodels.names import atoms_of, by_template, NameDecodeError, eval_formula
 
-CAP = {"quick": 18, "thorough": 22}
+CAP = {"quick": 18, "thorough": 23}
 
 
 def formula_classes():
@@ -24,10 +24,13 @@ def simple_graph(n, mask, as_nx=False):
     from cnfgen.graphs import Graph
     E = [e for i, e in enumerate(pairs(n)) if (mask >> i) & 1]
     if as_nx:
+        # a networkx graph whose labels are not 1..n and whose insertion order is not the label order:
+        # the documented conversion numbers the vertices by *sorted* label, so vertex v is the v-th label
         import networkx
         G = networkx.Graph()
-        G.add_nodes_from(range(1, n + 1))
-        G.add_edges_from(E)
+        lab = lambda v: 10 * v + 5
+        G.add_nodes_from(lab(v) for v in range(n, 0, -1))
+        G.add_edges_from((lab(v), lab(u)) for u, v in reversed(E))
         return G, E
     G = Graph(n)
     for e in E:
